@@ -174,6 +174,8 @@ class LiveCtx(Ctx):
                     ns[f['name']] = pane_field(default_factory=S.FACTORIES[dflt['factory']])
         ns['__annotations__'] = ann
         ns['__module__'] = __name__
+        if d.get('explicit_hash'):
+            ns['__hash__'] = lambda self: 7
         if d.get('hook'):
             ns['__post_init__'] = hook_fn(d['hook'])
         bases = []
@@ -638,6 +640,8 @@ def run(scen, ctx):
         return None   # handled by run_process (needs its own class creation)
     if op in ('construct', 'unchecked', 'fromdict', 'dictview', 'copy', 'replace', 'setattr', 'delattr'):
         return run_instance_op(scen, ctx)
+    if op in ('cmp', 'repr'):
+        return run_cmp(scen, ctx)
     if op == 'into_dyn':
         val = ctx.dec(scen['val'])
         try:
@@ -687,7 +691,83 @@ def run_process(scen):
            'minPos': e['info']['minPos'], 'maxPos': e['info']['maxPos'], 'eq': info.opts.eq, 'order': info.opts.order,
            'frozen': info.opts.frozen, 'unsafeHash': info.opts.unsafe_hash, 'kwOnly': info.opts.kw_only,
            'params': [p.__name__ for p in getattr(cls, '__parameters__', ())], 'nHandlers': len(info.opts.class_handlers)}
-    return ctx, {'class': out}
+    h = cls.__dict__.get('__hash__', 'absent')
+    if h == 'absent':
+        act = 'leave'
+    elif h is None:
+        act = 'setNone'
+    elif getattr(h, '__qualname__', '').startswith('_make_hash'):
+        act = 'makeHash'
+    else:
+        act = 'leave'
+    return ctx, {'class': out, 'hashAction': act}
+
+
+def _obj(ctx, j, key=None):
+    """decode a dataclass instance, optionally as an instance of a subscripted class `key`"""
+    if key and key in ctx.used and key != j['obj'][0]:
+        cls = ctx.used[key]
+        return cls.from_dict_unchecked({n: ctx.dec(x) for n, x in j['obj'][1]}, set_fields=set(j['obj'][2]))
+    return ctx.dec(j)
+
+
+def run_cmp(scen, ctx):
+    a = _obj(ctx, scen['a'], scen.get('akey'))
+    if scen['op'] == 'repr':
+        try:
+            return {'ok': repr(a)}
+        except BaseException as e:  # noqa
+            return {'raises': map_exc(e)}
+    b = _obj(ctx, scen['b'], scen.get('bkey'))
+    out = {}
+    import operator
+    for name, f in (('eq', operator.eq), ('lt', operator.lt), ('le', operator.le), ('gt', operator.gt), ('ge', operator.ge)):
+        try:
+            out[name] = bool(f(a, b))
+        except TypeError:
+            out[name] = 'NotImplemented'
+        except BaseException as e:  # noqa
+            out[name] = 'raises:' + map_exc(e)
+    pool = [_obj(ctx, x, k) for x, k in scen.get('pool', [])]
+    if pool:
+        scen['_oracle'] = {'c16': c16_laws(pool)}
+    return out
+
+
+def c16_laws(pool):
+    """C16 observed directly on the implementation: equivalence, trichotomy, transitivity, eq => equal hash"""
+    def safe(f, *xs):
+        try:
+            return f(*xs)
+        except TypeError:
+            return None
+    import operator as op
+    for a in pool:
+        if safe(op.eq, a, a) is not True:
+            return f'{a!r} != itself'
+    for a in pool:
+        for b in pool:
+            e = safe(op.eq, a, b)
+            if e != safe(op.eq, b, a):
+                return f'== is not symmetric on {a!r}, {b!r}'
+            if e:
+                ha, hb = safe(hash, a), safe(hash, b)
+                if ha is not None and hb is not None and ha != hb:
+                    return f'{a!r} == {b!r} but their hashes differ'
+            lt, gt = safe(op.lt, a, b), safe(op.gt, a, b)
+            if type(a) is type(b) and lt is not None and type(a).__pane_info__.opts.eq:
+                if [bool(lt), bool(e), bool(gt)].count(True) != 1:
+                    return f'not exactly one of <, ==, > holds for {a!r}, {b!r}: {lt}, {e}, {gt}'
+                if safe(op.le, a, b) != (lt or e) or safe(op.ge, a, b) != (gt or e):
+                    return f'<= / >= inconsistent with <, ==, > on {a!r}, {b!r}'
+                if lt != safe(op.gt, b, a):
+                    return f'a < b but not b > a for {a!r}, {b!r}'
+            for c in pool:
+                if e and safe(op.eq, b, c) and not safe(op.eq, a, c):
+                    return f'== is not transitive on {a!r}, {b!r}, {c!r}'
+                if type(a) is type(b) is type(c) and lt and safe(op.lt, b, c) and not safe(op.lt, a, c):
+                    return f'< is not transitive on {a!r}, {b!r}, {c!r}'
+    return None
 
 
 def run_instance_op(scen, ctx):
